@@ -436,6 +436,25 @@ func (c *Ctx) flagBitTables() {
 
 // judgeBoolGetter: the returned condition is equivalent to "bit `shift` of the flags byte is set".
 func judgeBoolGetter(env *bits.Env, res ssa.Value, shift int) (bad, unk []string) {
+	// the test made in a shared helper (`return m.flagBit(1)`): its expression with the parameters bound to the
+	// constants passed
+	if call, ok := res.(*ssa.Call); ok {
+		if h := call.Common().StaticCallee(); h != nil && h.Blocks != nil && !call.Common().IsInvoke() {
+			rets := ir.Returns(h)
+			if len(rets) == 1 && len(rets[0].Results) == 1 {
+				for i, p := range h.Params {
+					if i < len(call.Common().Args) {
+						if k, ok := call.Common().Args[i].(*ssa.Const); ok && k.Value != nil && k.Value.Kind() == constant.Int {
+							if u, exact := constant.Uint64Val(k.Value); exact {
+								env.Bind(p, bits.Const(u))
+							}
+						}
+					}
+				}
+				return judgeBoolGetter(env, rets[0].Results[0], shift)
+			}
+		}
+	}
 	bo, ok := res.(*ssa.BinOp)
 	if !ok || (bo.Op != token.EQL && bo.Op != token.NEQ) {
 		return nil, []string{"the getter does not return a comparison of masked flags with a constant"}
